@@ -1057,6 +1057,80 @@ def x1_conservative_defaults(ctx: Ctx):
 # ----------------------------------------------------------------------
 # G1: constants of list type (shared with C07.G2)
 
+def g4_stated_lengths(ctx: Ctx):
+    """Array-size inference starts from the list lengths type inference states.  Two places state one from something
+    other than the program text: the type of a captured value, and the type of a slice.  `ListType.__eq__` ignores the
+    length (it is metadata), so rows of different length are "equal" types.  (a) `_value_to_type` is evaluated, from its
+    source, on captured lists: a length is stated for a level only if every list of that level has it.  (b) the type
+    `_visit_list_slice` answers with never carries a static length."""
+    from fractions import Fraction
+    TI = 'fpy2/analysis/type_infer.py'
+    cls = '_TypeInferInstance' if ctx.repo.has_cls(TI, '_TypeInferInstance') else next(c.name for c in ctx.repo.classes(TI) if any(isinstance(s, ast.FunctionDef) and s.name == '_value_to_type' for s in c.body))
+    meths = {n: f for n, (_, _, f) in ctx.repo.methods(TI, cls, inherited=False).items()}
+    # the equality the analysis relies on
+    lt = ctx.repo.cls('fpy2/types.py', 'ListType')
+    eqf = next((s for s in lt.body if isinstance(s, ast.FunctionDef) and s.name == '__eq__'), None)
+    ignores_length = eqf is not None and 'length' not in {a.attr for a in ast.walk(eqf) if isinstance(a, ast.Attribute)}
+
+    def same(me, other):
+        if not (isinstance(other, Obj) and other.kind == me.kind):
+            return False
+        if me.kind == 'ListType':
+            return me.fields['elt'] == other.fields['elt'] and (ignores_length or me.fields['length'] == other.fields['length'])
+        if me.kind == 'TupleType':
+            return len(me.fields['elts']) == len(other.fields['elts']) and all(x == y for x, y in zip(me.fields['elts'], other.fields['elts']))
+        return True
+    mk = {
+        'ListType': lambda elt, length=None: Obj('ListType', elt=elt, length=length, eq=same), 'RealType': lambda c=None: Obj('RealType', eq=same),
+        'BoolType': lambda: Obj('BoolType', eq=same), 'ContextType': lambda: Obj('ContextType', eq=same), 'TupleType': lambda *e: Obj('TupleType', elts=tuple(e), eq=same),
+        'cast': lambda t, x: x, 'self._fresh_type_var': lambda: Obj('VarType', eq=same), 'Fraction': Fraction,
+    }
+
+    def lengths(t) -> Any:
+        if isinstance(t, Obj) and t.kind == 'ListType':
+            return (t.fields['length'], lengths(t.fields['elt']))
+        if isinstance(t, Obj) and t.kind == 'TupleType':
+            return tuple(lengths(x) for x in t.fields['elts'])
+        return '.'
+    cases = [
+        ('[1.0, 2.0, 3.0]', [1.0, 2.0, 3.0], (3, '.')), ('[[1.0, 2.0], [3.0, 4.0]]', [[1.0, 2.0], [3.0, 4.0]], (2, (2, '.'))),
+        ('[[1.0, 2.0], [3.0]]', [[1.0, 2.0], [3.0]], (2, (None, '.'))), ('[[3.0], [1.0, 2.0]]', [[3.0], [1.0, 2.0]], (2, (None, '.'))),
+        ('[[[1.0], [2.0]], [[3.0, 4.0], [5.0]]]', [[[1.0], [2.0]], [[3.0, 4.0], [5.0]]], (2, (2, (None, '.')))),
+        ('[([1.0], 2.0), ([3.0, 4.0], 5.0)]', [([1.0], 2.0), ([3.0, 4.0], 5.0)], (2, ((None, '.'), '.'))),
+        ('[[1.0, 2.0], [3.0, 4.0], [5.0]]', [[1.0, 2.0], [3.0, 4.0], [5.0]], (3, (None, '.'))),
+    ]
+    fn = meths.get('_value_to_type')
+    if fn is None:
+        raise ShapeError('_value_to_type not found')
+    for label, val, want in cases:
+        got = Interp({}, meths, globals_={'Type': 'Type', 'list': list, 'tuple': tuple}, overrides=mk, is_a=lambda k, c: k == c).call_function(fn, [val], bound_self=True)
+        ctx.check(got is None or _no_false_length(lengths(got), want), TI, fn, f'{cls}._value_to_type', f'captured {label}: every stated length is one every list of that level has',
+                  f'typed with lengths {lengths(got)}; the value has {want} (None: rows differ) -- `row = RAG[1]` of a ragged RAG is reported with the first row\'s length')
+    # (b) slices
+    fs = meths.get('_visit_list_slice')
+    if fs is None:
+        raise ShapeError('_visit_list_slice not found')
+    for known in (3, None):
+        src = mk['ListType'](mk['RealType'](), known)
+        it = Interp({}, meths, overrides={**mk, 'self._visit_expr': lambda e, c, s=src: s if e == 'value' else mk['RealType'](), 'self._unify': lambda a, b: a, 'self._resolve_type': lambda t: t},
+                    globals_={'Type': 'Type', 'list': list, 'tuple': tuple}, is_a=lambda k, c: k == c)
+        got = it.call_function(fs, [Obj('ListSlice', value='value', start='start', stop='stop'), None], bound_self=True)
+        ctx.check(isinstance(got, Obj) and got.kind == 'ListType' and got.fields['length'] is None, TI, fs, f'{cls}._visit_list_slice',
+                  f'a slice of a list of {"length " + str(known) if known else "unknown length"} has no static length',
+                  f'answers {got!r}: `XS[0:n]` of a captured three-element XS is reported three long whatever n is')
+
+
+def _no_false_length(got, want) -> bool:
+    """Every length `got` states is the one `want` has at that place (stating fewer is fine)."""
+    if got == '.' or want == '.':
+        return got == want or got == '.'
+    if isinstance(got, tuple) and len(got) == 2 and (got[0] is None or isinstance(got[0], int)) and isinstance(want, tuple) and len(want) == 2 and (want[0] is None or isinstance(want[0], int)):
+        return (got[0] is None or got[0] == want[0]) and _no_false_length(got[1], want[1])
+    if isinstance(got, tuple) and isinstance(want, tuple) and len(got) == len(want):
+        return all(_no_false_length(g, w) for g, w in zip(got, want))
+    return False
+
+
 def g1_heap_constants(ctx: Ctx):
     from . import c07
     sub = Ctx(ctx.repo, ctx.rule)
@@ -1347,6 +1421,7 @@ RULES = [
     Rule('C13.T1', 'value-class transfer and refinement tables cover IEEE behaviour on every class combination', t1_value_class_tables, 9, 'T'),
     Rule('C13.X1', 'value-class defaults are conservative (unknown scope, pass-through operations, targets, parameters)', x1_conservative_defaults, 24, 'X'),
     Rule('C13.G1', 'a list value is reported constant only with a store-or-alias fact', g1_heap_constants, 1, 'G'),
+    Rule('C13.G4', 'a list length stated by type inference for a captured value or a slice is one the value has', g4_stated_lengths, 9, 'G'),
     Rule('C13.G3', 'a constant is computed only under a statically known, non-stochastic context (= C07.G4)', lambda ctx: __import__('sa.props.c07', fromlist=['g4_fold_context']).g4_fold_context(ctx), 11, 'G'),
     Rule('C13.G2', 'array sizes are constrained globally only where every execution passes', g2_size_facts_unconditional, 15, 'G'),
     Rule('C13.X2', 'every list-sharing construct has an alias route; anything unmodelled escapes its operands', x2_alias_routes, 36, 'X'),
@@ -1355,6 +1430,11 @@ RULES = [
 from ..selftest import Mutant  # noqa: E402
 
 MUTANTS = [
+    Mutant('ragged-rows-take-the-first-length', 'fpy2/analysis/type_infer.py', "                for e in elt_tys[1:]:\n                    first = self._common_lengths(first, cast(Type, e))\n", "", 'C13.G4',
+           'finding F85 before its repair: RAG = [[1.0, 2.0], [3.0]]; row = RAG[1] is reported two long'),
+    Mutant('slice-keeps-the-length', 'fpy2/analysis/type_infer.py', "        if isinstance(resolved, ListType) and resolved.length is not None:\n            return ListType(resolved.elt)\n", "", 'C13.G4',
+           'finding F85 before its repair: XS[0:n] is reported as long as XS'),
+    Mutant('common-length-of-the-outer-level-only', 'fpy2/analysis/type_infer.py', "                elt = self._common_lengths(a.elt, b.elt)\n", "                elt = a.elt\n", 'C13.G4'),
     Mutant('one-draw-reported-constant', PE, "        if ctx.is_stochastic():\n            return None\n        try:", "        try:", 'C13.G3',
            'finding F74 before its repair'),
     Mutant('while-condition-read-ahead-of-the-fixpoint', PE, "            self._visit_expr(stmt.cond, ctx)\n            self._visit_block(stmt.body, ctx)\n\n        self._loop_fixpoint(stmt, run_pass)",
